@@ -173,7 +173,18 @@ def p_secflt(_=None):
         c = y > x
         o = await mpc.output(y)
         oc = await mpc.output(c)
-        return round(o * 8), oc
+
+        @mpc.coroutine
+        async def less(a, b) -> secflt:          # user coroutine returning a secure float (placeholder handed out at once)
+            return a < b
+
+        c2 = less(x, y)
+        probe = mpc.output(c2)                   # every party schedules this opening ...
+        if mpc.pid == 0:
+            await probe                          # ... but only party 0 waits for it (awaiting is a local decision): c2 is
+        z = c2 * y + c2                          # consumed after less() has finished at party 0 and before it elsewhere
+        oz = await mpc.output(z)
+        return round(o * 8), oc, round(oz * 8), await probe
     return prog
 
 
@@ -246,6 +257,28 @@ def p_np(_=None):
     return prog
 
 
+def p_tswitch(_=None):
+    """the program lowers the threshold for its final, public phase (demos/parallelsort.py runs with threshold 0) while
+    an opening is still pending: at every party the pending operation has to finish with the threshold it started with
+    (Runtime.input/output read it in their first step, before any share is awaited), whatever the timing of the shares"""
+    async def prog(mpc):
+        import asyncio
+        secint = mpc.SecInt(16)
+        m = len(mpc.parties)
+        x = mpc.input(secint(42 + mpc.pid), senders=0)
+        y = mpc.output(x, receivers=[m - 1])          # scheduled, awaited below
+        z = mpc.output(x)
+        for _ in range(4):                            # unrelated local work: every operation called so far takes its
+            await asyncio.sleep(0)                    # first step(s); shares from party 0 have arrived or not
+        mpc.threshold = 0
+        r0 = await y
+        r1 = await z
+        v = mpc.input(secint(mpc.pid + 1))
+        r2 = await mpc.output(mpc.sum(v))
+        return r0, r1, r2
+    return prog
+
+
 PROGRAMS = {
     'arith': (p_arith, {'int'}),
     'f1': (p_f1, {'int', 'transfer'}),
@@ -261,4 +294,5 @@ PROGRAMS = {
     'np': (p_np, {'np'}),
     'secgrp': (p_secgrp, {'grp'}),
     'fault': (p_fault, {'int', 'fault'}),
+    'tswitch': (p_tswitch, {'int', 'threshold'}),
 }
